@@ -143,7 +143,10 @@ def revolve(
     single += np.tile(np.arange(per), (2, 1)).T.reshape((-1, 1))
     # remove any zero-area triangle
     # this covers many cases without having to think too much
-    single = single[triangles.area(vertices[single]) > tol.merge]
+    # the quad of the last point indexes into the slice after the
+    # next one, which only exists if there are two or more slices
+    slice_area = triangles.area(vertices[single % len(vertices)])
+    single = single[slice_area > tol.merge * slice_area.max()]
 
     # how much to offset each slice
     # note arange multiplied by vertex stride
